@@ -198,7 +198,10 @@ def ack_script(rng):
     s = Script(rng, True)
     s.ops.append("cfg 76 2000 2500000 4096 -")
     w = rng.choice([1, 2, 3, 4, 5, 6, 7, 8, 16, 100])
-    s.peer(5, 0, struct.pack(">I", w))
+    # one script in four announces w plus a high part (bits 8..31): every bit of the 32-bit window counts, so the session
+    # stays silent where a decoder that drops or masks bits would acknowledge every w bytes
+    hi = rng.choice([1 << 31, 1 << 30, 3 << 30, 1 << 24, 1 << 16, 1 << 8, 0x80808000]) if rng.chance(1, 4) else 0
+    s.peer(5, 0, struct.pack(">I", hi + w))
     for _ in range(rng.range(3, 12)):
         data = b""
         for _ in range(rng.range(1, 6)):
@@ -206,7 +209,7 @@ def ack_script(rng):
         s.ops.append("in %d k%d %s" % (s.tick(), rng.range(1, w + 2), hexs(data)))
         if rng.chance(1, 5):
             w = rng.choice([1, 2, 3, 5, 8, 13, 50])
-            s.peer(5, 0, struct.pack(">I", w))
+            s.peer(5, 0, struct.pack(">I", hi + w))
     return "client " + " | ".join(s.ops)
 
 
